@@ -23,18 +23,19 @@ MODULE = "HttpCloseMC"
 
 MC = {"quick": ["HttpClose_mc_q1.cfg", "HttpClose_mc_q2.cfg", "HttpClose_mc_q3.cfg", "HttpClose_mc_q4.cfg"],
       "thorough": ["HttpClose_mc_t1.cfg", "HttpClose_mc_t2.cfg", "HttpClose_mc_t3.cfg", "HttpClose_mc_t4.cfg", "HttpClose_mc_t5.cfg",
-                   "HttpClose_mc_t6.cfg", "HttpClose_mc_q2.cfg"]}
+                   "HttpClose_mc_t6.cfg", "HttpClose_mc_t7.cfg"]}
 LIVE = {"quick": ["HttpClose_live_q.cfg"],
         "thorough": ["HttpClose_live_t1.cfg", "HttpClose_live_t2.cfg", "HttpClose_live_t3.cfg", "HttpClose_live_t4.cfg"]}
 COVER = {"quick": ["HttpClose_cover_qa.cfg", "HttpClose_cover_qb.cfg", "HttpClose_cover_qc.cfg"],
          "thorough": ["HttpClose_cover_ta.cfg", "HttpClose_cover_tb.cfg", "HttpClose_cover_tc.cfg", "HttpClose_cover_td.cfg",
                       "HttpClose_cover_qb.cfg", "HttpClose_cover_qc.cfg"]}
 GEN = {"quick": ["HttpClose_gen.cfg", "HttpClose_gen_sl.cfg"], "thorough": ["HttpClose_gen.cfg", "HttpClose_gen_nt.cfg", "HttpClose_gen_sl.cfg"]}
-COVERAGE_CFG = "HttpClose_mc_t4.cfg"
+# -coverage 1 once (thorough): these configurations together must leave no action of HttpClose.tla dead
+COVERAGE_CFGS = ["HttpClose_mc_t2.cfg", "HttpClose_mc_t3.cfg", "HttpClose_mc_t5.cfg", "HttpClose_mc_t6.cfg"]
 ACTIONS = ["Call", "Release", "Ret", "Sreq", "Ans", "CCancel", "CClose", "SClose", "DelMode", "ReleaseDel", "CutPost", "CutGet", "NetDown",
            "Tick", "Idle", "CNotif", "SNotif", "PostArrive", "SrvAccept", "HandlerCtxReturn", "SrvRespond", "PostEnd", "SrvSetClosing",
            "SrvTransportClose", "SrvDone", "SrvCloseWoken", "SrvOnClose", "GetEnd", "GetArrive", "DelArrive", "CliStreamEnd", "CliAccept",
-           "CliAnswerPost", "CliVanished", "CliSetClosing", "CliFailNotice", "CliTransportClose", "CliFinish", "SseExit", "SseBodyEnd",
+           "CliAnswerPost", "CliVanished", "SlServeReturn", "CliSetClosing", "CliFailNotice", "CliTransportClose", "CliFinish", "SseExit", "SseBodyEnd",
            "CliDone", "CliCloseReturn"]
 WITNESSES = ["W_NoLate", "W_NoLateRefused", "W_NoLost", "W_NoCloseWhileRunning", "W_NoTwoClosers", "W_NoDelTimeout", "W_NoBackoffClose",
              "W_NoStuck", "W_NoTimerClose", "W_NoMissing", "W_NoCtxCancel", "W_NoLateN"]
@@ -137,7 +138,7 @@ FAST = ["-XX:TieredStopAtLevel=1"]
 
 
 # at most this many TLC JVMs of this satellite at a time (the machine is shared)
-JVMS = threading.BoundedSemaphore(5)
+JVMS = threading.BoundedSemaphore(6)
 
 
 def parallel(jobs, sem=None):
@@ -173,17 +174,13 @@ def model_jobs(tier):
 
     def mc(cfg, workers, heap, cover=False):
         def run():
-            r = vlib.run_tlc(MODULE, cfg, workdir=own_wd(), workers=workers, timeout=1500, heap_gb=heap, coverage=cover,
+            # the -coverage 1 configurations run on HttpClose.tla itself (no history variable): TLC then reports per action
+            r = vlib.run_tlc("HttpClose" if cover else MODULE, cfg, workdir=own_wd(), workers=workers, timeout=1500, heap_gb=heap, coverage=cover,
                              java_opts=(FAST if tier == "quick" else []))
             vlib.tlc_must_pass(r, cfg)
             if not r.ok:
                 raise vlib.MachineryError("HttpClose model violates %s in %s (design check failed)" % (r.violation, cfg))
-            if cover:
-                dead = [a for a in ACTIONS if a in r.coverage and r.coverage[a][1] == 0]
-                missing = [a for a in ACTIONS if a not in r.coverage]
-                if dead or missing:
-                    raise vlib.MachineryError("dead / unreported actions in %s: %s %s" % (cfg, dead, missing))
-            return [(cfg + (" (-coverage 1: no dead action)" if cover else ""), r)]
+            return [(cfg + (" (-coverage 1)" if cover else ""), r)]
         return run
 
     def live(cfg):
@@ -217,7 +214,7 @@ def model_jobs(tier):
         return run
 
     for cfg in MC[tier]:
-        jobs.append((cfg, mc(cfg, 2 if tier == "quick" else 4, 3 if tier == "quick" else 8, cover=(cfg == COVERAGE_CFG))))
+        jobs.append((cfg, mc(cfg, 2 if tier == "quick" else 4, 3 if tier == "quick" else 8, cover=(cfg in COVERAGE_CFGS))))
     for cfg in LIVE[tier]:
         jobs.append((cfg, live(cfg)))
     jobs.append(("lead", must_violate("HttpClose_lead_stuck.cfg", "temporal")))
@@ -288,8 +285,69 @@ def simulate_scenarios(cfgname, num, depth, seed, rnd, prefix):
             continue
         seen.add(key)
         consts = {"stateless": b["stateless"], "timeout": b["timeout"], "nosse": not b["sse"]}
-        out.append(mk_scenario("%s%d" % (prefix, i), consts, [[str(x) for x in s] for s in b["steps"]], rnd))
+        sc = mk_scenario("%s%d" % (prefix, i), consts, [[str(x) for x in s["step"]] for s in b["steps"]], rnd)
+        # what the model says the harness sees: before the first step, after every step
+        EXPECT[sc["id"]] = [s["pre"] for s in b["steps"]] + [b["final"]]
+        out.append(sc)
     return (cfgname + "(simulate)", res), out
+
+
+# scenario id -> projections of the model's quiescent states (HttpCloseMC!Proj): [before step 1, after step 1, ...]
+EXPECT = {}
+
+
+def project(snap):
+    """The harness snapshot in the vocabulary of HttpCloseMC!Proj."""
+    return {"intab": snap["intab"], "listed": snap["listed"], "clisted": snap["clisted"], "sclosing": snap["sclosing"],
+            "strclosed": snap["strclosed"], "calls": {k: ("err" if v == "toolerr" else v) for k, v in snap["calls"].items()},
+            "handlers": dict(snap["handlers"]), "chandlers": {k: v for k, v in snap["chandlers"].items() if v == "running"}}
+
+
+def conformance(v, traces):
+    """Binding of HttpClose.tla to the code: for the behaviours TLC generated by simulation, the snapshot the harness
+    took after every step must be the projection of the model's state after that step.  A difference is DRIFT (the
+    model no longer describes the code); the monitor's verdict does not depend on it."""
+    checked = steps = 0
+    seen = set()
+    for tid, start, trows in traces:
+        exp = EXPECT.get(tid)
+        if exp is None:
+            continue
+        snaps = [r for r in trows if r.get("ev") in ("ready", "step")]
+        if not snaps or snaps[0].get("ev") != "ready" or any(r.get("ev") == "panic" for r in trows):
+            continue
+        checked += 1
+        for i, r in enumerate(snaps):
+            if i >= len(exp):
+                break
+            if r.get("ev") == "step" and not r.get("applied"):
+                key = ("not-applicable", r.get("op"))
+                if key not in seen:
+                    seen.add(key)
+                    v.drift.append("httpclose trace %s: step %d %s %s is enabled in HttpClose.tla but was not applicable on the real code"
+                                   % (tid, i, r.get("op"), r.get("a1")))
+                break
+            real, want = project(r["snap"]), exp[i]
+            want = {"intab": want["intab"], "listed": want["listed"], "clisted": want["clisted"], "sclosing": want["sclosing"],
+                    "strclosed": want["strclosed"], "calls": {k: x for k, x in want["calls"].items() if x != "none"},
+                    "handlers": {k: x for k, x in want["handlers"].items() if x != "none"},
+                    "chandlers": {k: x for k, x in want["chandlers"].items() if x == "running"}}
+            steps += 1
+            skip = set()
+            if exp[i].get("gone"):          # a vanished client: its side of the projection means nothing
+                skip |= {"clisted", "calls", "chandlers"}
+            if exp[i].get("delpend"):       # whoever made the client idle is busy sending the DELETE: its caller has not returned
+                skip |= {"calls"}
+            diff = [f for f in want if f not in skip and want[f] != real[f]]
+            if diff:
+                key = (diff[0], r.get("op"))
+                if key not in seen:
+                    seen.add(key)
+                    v.drift.append("httpclose trace %s: after step %d (%s %s) the code shows %s=%s, HttpClose.tla says %s"
+                                   % (tid, i, r.get("op"), r.get("a1"), diff[0], json.dumps(real[diff[0]]), json.dumps(want[diff[0]])))
+                break
+    v.cov["httpclose_conformance_traces"] = checked
+    v.cov["httpclose_conformance_steps_compared"] = steps
 
 
 def random_scenarios(n, seed, rnd, prefix):
@@ -523,12 +581,21 @@ def satellite(v, pid, tier, seed, replay_scn=None):
         mt.join()
     if "err" in mres:
         raise mres["err"]
+    taken = {}
     for name, _ in mres["jobs"]:
         for (label, r) in mres["got"][name]:
             v.add_tlc(label, r)
+            for a, (d, t) in r.coverage.items():
+                taken[a] = taken.get(a, 0) + t
+    if tier == "thorough":
+        dead = [a for a in ACTIONS if taken.get(a, 0) == 0]
+        if dead:
+            raise vlib.MachineryError("dead actions of HttpClose.tla (never taken in %s): %s" % (COVERAGE_CFGS, dead))
+        v.cov["httpclose_actions_covered"] = len(ACTIONS)
     v.cov["httpclose_model_runs"] = sum(len(mres["got"][n]) for n, _ in mres["jobs"])
     phase("model(rest)")
     traces = judge(v, pid, obs, orows, {r["id"]: r for r in rows})
+    conformance(v, traces)
     phase("monitor")
     ran = {tid for tid, _, trs in traces if any(r.get("ev") == "final" for r in trs)}
     if len(ran) < len(rows) and not any(r.get("ev") in ("panic", "bubble.leak") for r in orows):
